@@ -54,8 +54,45 @@ Parts of the check (see lean/LabreaModel/Hook.lean, lean/LabreaProps/C18.lean):
        setattr_after          `Cls.m = f` after class creation (a mutating class decorator): the hooks only run
                               at class creation, the new function is called directly, no request is issued.
 
+  6. PUBLIC ENTRY POINTS other than evaluate / validate / keys / explain through which the library evaluates a
+     node on the caller's behalf (`ep_rows`: the table entry point -> equivalent direct form, where a direct form
+     only calls the four operations on nodes, node constructors and plain Python). Reflection lists, for every
+     node class of the package, its public callables and properties (names not starting with `_`, plus __call__,
+     __rshift__, __add__, __iter__) and the public names of the package / of labrea.functions; every one of them
+     is either a row of the table or shows up in the evidence under entry_points.uncovered_members. Rows:
+        node(o), node(), node(None)          == node.evaluate(o or {})          (every node class)
+        step.transform(x, o) / (x) / kw      == step.evaluate(o or {})(x)       (PipelineStep, Pipeline, every
+                                                                                 helper of labrea.functions)
+        effect.transform(x, o)               == callback.evaluate(o or {})(x) / member effects / one LogRequest
+        node >> f, node.apply(f), .bind(g)   == Apply / Bind built directly; node.evaluate(o)'s requests are part
+        step + other, pipeline + other       == Pipeline(...) built directly; iteration / .empty: no request
+        node.result, ensure, unit, fingerprint, Map.values, Dataset.default / with_options / with_default_options /
+        register / overload / set_dispatch / set_cache / add_effect(s) / disable_effects / enable_effects /
+        is_abstract, Option.set / namespace / auto, Namespace members, Overloaded.register / switch, CaseWhen.when /
+        otherwise, FunctionApplication.lift / PartialApplication.lift, dataset-class instantiation DC(o), and the
+        helper constructors cached, switch, case, coalesce, WithDefaultOptions, evaluatable_list/tuple/set/dict,
+        arguments, pipeline_step, dataset.
+     Every row runs on every subject it applies to (`ep_subjects`: one fresh graph per node class, the helpers of
+     labrea.functions with option-valued arguments, some user-defined class shapes of part 5; plus, drawn from the
+     seed, random graphs and random pipelines for the inherited rows). For each (row, subject, options), both
+     forms on fresh subjects:
+       (a) under pass-through recording handlers for ALL request types the sequence of requests (kind, target:
+           the subject's name for declared nodes / the class for temporary ones, digest of the options handed
+           over) and the outcome (value or exception chain with the error sources) must be equal;
+       (b) under an EvaluateRequest handler that answers a substitute for the node itself / for a dependency the
+           outcome and the request sequence must be equal again (so the entry point honours a substitution
+           exactly where the direct form does).
+     The directed family is the same in every run; the seed rotates the option dictionaries in the quick tier.
+     KEPT OUT OF THE ORACLE (observed in every run, evidence: entry_points.known_bypasses_kept_out_of_the_oracle
+     and .observed_only):
+       dataset-class instantiation          `DC(options)` is type.__call__ (type precedes Evaluatable in the bases
+                                            of the metaclass): the body of DC.evaluate runs with no EvaluateRequest
+                                            for DC; Apply / Bind call their source as source(options), so DC >> f,
+                                            DC.apply(f), DC.bind(g) skip it too. With that one request removed
+                                            from the direct form the two forms must still agree (judged).
+
 The implementation always runs in a subprocess of PY with PYTHONPATH=REPO (worker mode of this file); the two
-family jobs of part 5 run in their own worker processes concurrently with parts 1-4.
+family jobs of part 5 and the job of part 6 run in their own worker processes concurrently with parts 1-4.
 """
 import sys
 from pathlib import Path
@@ -85,6 +122,8 @@ SPEC = PropSpec(
         "the recording handlers and the monkeypatched slot/cache/logging counters of harness/props/C18.py",
         "user-defined class family: CPython's MRO decides which recipe function a class designates; chain tokens "
         "m<j>/n<j> (real mixin classes) are presented to the Hook model as p<j>/- (chain_to_model)",
+        "entry-point table (part 6): the direct form of every public entry point is written by hand in ep_rows; the list of "
+        "members it has to cover comes from reflection over the imported package",
     ],
     assumptions=[
         "Generic/Protocol/ABC __init_subclass__ call super() (checked: they are the only foreign ones in any MRO)",
@@ -95,6 +134,9 @@ SPEC = PropSpec(
         "(core_request_log)",
         "user-defined classes: super().m(options) inside an override of a routed method (unbounded recursion on the "
         "unchanged package) and assignment of a method after class creation (not routed) are observed, not judged",
+        "entry points (part 6): DC(options) on a dataset class, and DC >> f / DC.apply / DC.bind, issue no EvaluateRequest "
+        "for DC on the unchanged package: observed, not judged (the rest of their request sequence is judged); request "
+        "targets that are temporary nodes are compared by class, not identity",
     ],
 )
 
@@ -1769,6 +1811,1175 @@ def w_subst(job):
     return {"cases": out, "shapes": sorted(s_shapes()), "ucases": uout, "uobserve": uobs}
 
 
+# ---------------------------------------------------------------------------------- part 6: public entry points
+EP_X = 7                                  # the value handed to transformations
+EP_EXTRA_MEMBERS = ("__call__", "__rshift__", "__add__", "__iter__")
+EP_OPTIONS = [
+    {"A": 3, "B": "bee", "C": [1, 2], "K": "k1", "MODE": "alt", "FACTOR": 2, "S": {"X": "ex"}, "PKG": {"A": 5, "SUB": {"X": 9}}},
+    {"A": -2, "B": "x", "C": [5], "K": "k2", "MODE": "none", "FACTOR": 5, "S": {"X": "{B}"}},
+    {"A": 1, "B": "b", "C": [], "K": "zz", "FACTOR": 1, "S": {"X": "s"}, "MODE": "alt", "LABREA": {"CACHE": {"DISABLED": True}}},
+    {"B": "only-b", "C": [4]},            # FACTOR missing: steps that require it fail, in the same way in both forms
+]
+
+
+def ep_is_node(v):
+    T = W.T
+    return isinstance(v, (T.Evaluatable, T.Validatable, T.Explainable, T.Cacheable))
+
+
+def ep_label(obj, names):
+    """Name of a request target: the subject's name for the objects the case declared, else its class
+    (temporary nodes the library builds while evaluating have no identity worth comparing)."""
+    n = names.get(id(obj))
+    if n is not None:
+        return "@" + n
+    if isinstance(obj, type):
+        return "class:" + obj.__name__
+    if type(obj).__name__ == "Option":
+        return "Option:" + str(getattr(obj, "key", "?"))
+    return type(obj).__name__
+
+
+def ep_optkey(options, top):
+    import hashlib
+    import re
+    if options is None:
+        return "None"
+    try:
+        s = re.sub(r" at 0x[0-9a-fA-F]+", "", json.dumps(options, sort_keys=True, default=str))
+    except Exception:     # noqa: BLE001
+        s = "?"
+    return "o" if s == top else ("{}" if s == "{}" else "#" + hashlib.md5(s.encode()).hexdigest()[:6])
+
+
+def ep_exc(e, names):
+    out, n = [], 0
+    while e is not None and n < 6:
+        nm = type(e).__name__
+        if nm == "KeyNotFoundError":
+            nm += ":" + str(getattr(e, "key", "?"))
+        if isinstance(e, W.labrea.exceptions.EvaluationError):
+            nm += "@" + ep_label(getattr(e, "source", None), names)
+        out.append(nm)
+        e = e.__cause__
+        n += 1
+    return out
+
+
+class EpRec:
+    """Pass-through recording handlers for every request type; optionally one EvaluateRequest target is
+    answered with a substitute instead."""
+
+    def __init__(self, names, top, target=None, sub=None):
+        self.names, self.top, self.target, self.sub = names, top, target, sub
+        self.log, self.hits = [], 0
+        self.okeys = {}        # id(options object) -> (the object, its digest)
+
+    def okey(self, options):
+        c = self.okeys.get(id(options))
+        if c is None or c[0] is not options:
+            c = self.okeys[id(options)] = (options, ep_optkey(options, self.top))
+        return c[1]
+
+    def handlers(self):
+        import re
+        import labrea.cache as C
+        import labrea.logging as L
+        import labrea.type_validation as TV
+        D = W.RT._DEFAULT_HANDLERS
+        rec, hs = self, {}
+        for m in METHS:
+            def mk(m=m, default=D[W.REQ[m]], field=W.TARGET[m]):
+                def h(r):
+                    t = getattr(r, field)
+                    rec.log.append([m, ep_label(t, rec.names), rec.okey(r.options)])
+                    if m == "evaluate" and rec.target is not None and t is rec.target:
+                        rec.hits += 1
+                        return rec.sub
+                    return default(r)
+                return h
+            hs[W.REQ[m]] = mk()
+        for R in (C.CacheGetRequest, C.CacheSetRequest, C.CacheExistsRequest):
+            def mkc(R=R, default=D[R]):
+                def h(r):
+                    rec.log.append([R.__name__, ep_label(r.evaluatable, rec.names), rec.okey(r.options)])
+                    return default(r)
+                return h
+            hs[R] = mkc()
+
+        def hlog(r, default=D[L.LogRequest]):
+            rec.log.append(["LogRequest", re.sub(r" at 0x[0-9a-fA-F]+", "", str(r.msg))[:60], rec.okey(r.options)])
+            return default(r)
+        hs[L.LogRequest] = hlog
+
+        def htv(r, default=D[TV.TypeValidationRequest]):
+            rec.log.append(["TypeValidationRequest", getattr(r.type, "__name__", str(r.type)), rec.okey(r.options)])
+            return default(r)
+        hs[TV.TypeValidationRequest] = htv
+        return hs
+
+
+def ep_exec(fn, build, o, target_key=None, anon=False):
+    """Run one form on a fresh subject under the recording handlers. -> (outcome, request log, hits)"""
+    import copy
+    import warnings
+    with warnings.catch_warnings():
+        warnings.simplefilter("ignore")
+        S = build()
+        target = S[target_key] if target_key else None      # (creates an auxiliary node that is a target)
+        names = {}
+        for k, v in S.items():
+            if ep_is_node(v) and not (anon and k == "node"):
+                names.setdefault(id(v), k)
+        sub = S["subs"][target_key] if target_key else None
+        rec = EpRec(names, _ep_top(o), target, sub)
+        with W.RT.handle(rec.handlers()):
+            try:
+                res = ["ok", g_canon(fn(S, copy.deepcopy(o)), EP_X)]
+            except BaseException as e:     # noqa: BLE001
+                res = ["raised"] + ep_exc(e, names)
+    return res, rec.log, rec.hits
+
+
+def _ep_top(o):
+    import re
+    return re.sub(r" at 0x[0-9a-fA-F]+", "", json.dumps(o, sort_keys=True, default=str)) if o is not None else "null"
+
+
+def ep_nested(key, value):
+    out = cur = {}
+    parts = key.split(".")
+    for p in parts[:-1]:
+        cur[p] = {}
+        cur = cur[p]
+    cur[parts[-1]] = value
+    return out
+
+
+def ep_second(items):
+    return (item[1] for item in items)
+
+
+def ep_tag(v):
+    return ("applied", v)
+
+
+def ep_step(name, key, default=None, required=False):
+    from labrea import Option, pipeline_step
+    opt = Option(key) if required else Option(key, default)
+
+    def f(x, p=opt):
+        return (name, x, p)
+    f.__name__ = f.__qualname__ = name
+    return pipeline_step(f)
+
+
+def ep_subst_fn(x):
+    return ("substituted", x)
+
+
+def ep_subjects():
+    """name -> builder of a fresh subject S: {"node": the node the entry points are called on, "subs":
+    {name of a node of S: the value a substituting EvaluateRequest handler answers for it}, "x": the value
+    handed to transformations, further named nodes}. One subject (at least) per node class."""
+    import labrea.functions as F
+    from labrea import (Option, Value, Template, Iter, Map, Coalesce, Switch, case, cached, dataset, abstractdataset,
+                        WithOptions, Overloaded, AllOptions, datasetclass)
+    from labrea.application import FunctionApplication, PartialApplication
+    from labrea.arguments import EvaluatableArgs, EvaluatableKwargs, EvaluatableArguments
+    from labrea.computation import CallbackEffect, ChainedEffect, Computation
+    from labrea.conditional import _DependsOn as DependsOnCls
+    from labrea.logging import Logged, LogEffect
+    from labrea.pipeline import Pipeline
+    from labrea.types import Apply, Bind
+    tup, inc = FUNCS["tup"], FUNCS["inc"]
+    out = {}
+
+    def S(node, subs=None, **kw):
+        d = {"node": node, "x": EP_X}
+        d.update(kw)
+        d["subs"] = dict({"node": "SUB"}, **(subs or {}))
+        return d
+
+    def reg(f):
+        out[f.__name__.lstrip("_")] = f
+        return f
+
+    @reg
+    def _Value():
+        return S(Value({"a": [1, 2]}))
+
+    @reg
+    def _Option():
+        dep = Option("A", 1)
+        return S(Option("Z", default=dep), {"dep": 40}, dep=dep)
+
+    @reg
+    def _Option_typed():
+        return S(Option("A", default=1, type=int), {"node": 41})
+
+    @reg
+    def _Template():
+        dep = Option("B", "bb")
+        return S(Template("{A}/{:p:}", p=dep), {"dep": "SUBP"}, dep=dep)
+
+    @reg
+    def _WithOptions():
+        dep = Option("A", 0) >> inc
+        return S(WithOptions(dep, {"A": 10}), {"dep": 50}, dep=dep)
+
+    @reg
+    def _AllOptions():
+        return S(AllOptions, {"node": {"SUB": 1}})
+
+    @reg
+    def _Namespace():
+        @Option.namespace
+        class PKG:
+            A: int
+            B = "dflt"
+            T = Option.auto(default="{B}", doc="templated") >> str
+
+            class SUB:
+                X = 3
+        return S(PKG, {"node": {"SUB": 1}})
+
+    @reg
+    def _Apply():
+        dep = Option("A", 1)
+        return S(Apply(dep, Value(inc)), {"dep": 60}, dep=dep)
+
+    @reg
+    def _Bind():
+        dep = Option("A", 1)
+        alt = Option("B", "bd")
+        return S(Bind(dep, lambda a: alt if isinstance(a, int) and a > 0 else Value("neg")), {"dep": 2, "alt": "SUBALT"},
+                 dep=dep, alt=alt)
+
+    @reg
+    def _FunctionApplication():
+        dep = Option("A", 1)
+        return S(FunctionApplication(tup, dep, k=Option("B", "b")), {"dep": 70}, dep=dep)
+
+    @reg
+    def _PartialApplication():
+        dep = Option("A", 1)
+        return S(PartialApplication(tup, dep), {"node": ep_subst_fn, "dep": 71}, dep=dep)
+
+    @reg
+    def _EvaluatableArgs():
+        dep = Option("A", 1)
+        return S(EvaluatableArgs(dep, Value(2)), {"node": (8, 9), "dep": 72}, dep=dep)
+
+    @reg
+    def _EvaluatableKwargs():
+        dep = Option("A", 1)
+        return S(EvaluatableKwargs(a=dep, b=Value(2)), {"node": {"a": 8}, "dep": 73}, dep=dep)
+
+    @reg
+    def _EvaluatableArguments():
+        dep = Option("A", 1)
+        return S(EvaluatableArguments(dep, k=Option("B", "b")), {"dep": 74}, dep=dep)
+
+    @reg
+    def _Cached():
+        dep = FunctionApplication(tup, Option("A", 1))
+        return S(cached(dep), {"dep": "SUBDEP"}, dep=dep)
+
+    @reg
+    def _Coalesce():
+        dep = Option("A", 1)
+        return S(Coalesce(Option("MISSING"), dep, Value("last")), {"dep": 75}, dep=dep)
+
+    @reg
+    def _Computation():
+        dep = Option("A", 1)
+        eff = ep_step("eff", "B", "be")
+        return S(Computation(dep, CallbackEffect(eff)), {"dep": 76, "eff": ep_subst_fn}, dep=dep, eff=eff)
+
+    @reg
+    def _CaseWhen():
+        dep = Option("A", 1)
+        res = Option("B", "b")
+        return S(case(dep).when(FUNCS["pos"], res).otherwise("neg"), {"dep": -5, "res": "SUBRES"}, dep=dep, res=res)
+
+    @reg
+    def _Switch():
+        dep = Option("A", 1)
+        disp = Option("K", "k1")
+        return S(Switch(disp, {"k1": dep, "k2": Value("two")}, Value("dflt")), {"dep": 77, "disp": "k2"}, dep=dep, disp=disp)
+
+    @reg
+    def _DependsOn():
+        dep = Option("A", 1)
+        return S(DependsOnCls(dep, Option("K", "k")), {"dep": 78}, dep=dep)
+
+    @reg
+    def _Iter():
+        dep = Option("A", 1)
+        return S(Iter(dep, Value(2)), {"node": [5, 6], "dep": 79}, dep=dep)
+
+    @reg
+    def _Map():
+        dep = Option("A") >> inc
+        return S(Map(dep, {"A": Option("C", [1, 2])}), {"node": [({"A": 1}, "s1")], "dep": 80}, dep=dep)
+
+    @reg
+    def _Logged():
+        dep = Option("A", 1)
+        return S(Logged(dep, 20, "c18.ep", "c18 ep logged node"), {"dep": 81}, dep=dep)
+
+    @reg
+    def _Overloaded():
+        dep = Option("A", 1)
+        disp = Option("MODE", "none")
+        return S(Overloaded(disp, {"alt": dep}, Option("B", "dflt")), {"dep": 82, "disp": "alt"}, dep=dep, disp=disp)
+
+    @reg
+    def _PipelineStep():
+        return S(ep_step("scale", "FACTOR", 2), {"node": ep_subst_fn})
+
+    @reg
+    def _PipelineStep_required():
+        return S(ep_step("scale", "FACTOR", required=True), {"node": ep_subst_fn})
+
+    @reg
+    def _PipelineStep_functions():
+        dep = Option("B", 10)
+        return S(F.add(dep), {"node": ep_subst_fn, "dep": 100}, dep=dep, x=1)
+
+    @reg
+    def _PipelineStep_plain():
+        from labrea.pipeline import PipelineStep
+        dep = Value(ep_tag)
+        return S(PipelineStep(dep, "tag"), {"node": ep_subst_fn, "dep": ep_subst_fn}, dep=dep)
+
+    @reg
+    def _Pipeline():
+        s1, s2 = ep_step("scale", "FACTOR", 2), ep_step("shift", "B", "sb")
+        return S(s1 + s2 + ep_tag, {"node": ep_subst_fn, "s1": ep_subst_fn, "s2": ep_subst_fn}, s1=s1, s2=s2, dep=s1)
+
+    @reg
+    def _Pipeline_single():
+        s1 = ep_step("scale", "FACTOR", required=True)
+        return S(Pipeline(s1), {"node": ep_subst_fn, "s1": ep_subst_fn}, s1=s1, dep=s1)
+
+    @reg
+    def _Pipeline_empty():
+        return S(Pipeline(), {"node": ep_subst_fn})
+
+    @reg
+    def _Dataset():
+        calls = []
+
+        @dataset
+        def dep(a=Option("A", 1)):
+            calls.append("dep")
+            return ("dep", a)
+        eff = ep_step("eff", "B", "be")
+        cb = ep_step("cb", "K", "kc")
+
+        @dataset(dispatch="MODE", effects=[eff], callback=cb, default_options={"Z": "dz"})
+        def ds(d=dep, z=Option("Z"), s=Option("S.X", "sx")):
+            calls.append("ds")
+            return ("ds", d, z, s)
+        alt = Option("B", "ob")
+        ds.register("alt", alt)
+        return S(ds, {"dep": "SUBDEP", "alt": "SUBALT", "eff": ep_subst_fn, "cb": ep_subst_fn}, dep=dep, alt=alt, eff=eff, cb=cb,
+                 calls=calls)
+
+    @reg
+    def _Dataset_plain():
+        dep = Option("A", 1)
+
+        def body(a=None, b=None):
+            return ("plain", a, b)
+        return S(dataset(body, defaults={"a": dep, "b": Option("B", "b")}), {"dep": 83}, dep=dep)
+
+    @reg
+    def _Dataset_abstract():
+        dep = Option("A", 1)
+
+        @abstractdataset(dispatch=Option("MODE", "none"))
+        def ads() -> str:
+            pass
+        ads.register("alt", dep)
+        return S(ads, {"dep": 84}, dep=dep)
+
+    @reg
+    def _Dataset_interface():
+        from labrea import implements, interface
+        dep = Option("A", 1)
+
+        @interface("MODE")
+        class Store:
+            path: str
+            limit: int = Option("FACTOR", 10)
+
+        @Store.implementation("alt")
+        class Alt:
+            path = dep
+
+        @implements(Store, alias=["none", "other"])
+        class Mem:
+            path = "memory:"
+            limit = 1
+        return S(Store.path, {"dep": "SUBDEP"}, dep=dep, limit=Store.limit)
+
+    @reg
+    def _DatasetClass():
+        @dataset
+        def dep(a=Option("A", 1)):
+            return ("inner", a)
+
+        @datasetclass
+        class DC:
+            a: object = dep
+            b: str = Option("B", "bd")
+            c: bool = True
+        return S(DC, {"dep": "SUBDEP"}, dep=dep)
+
+    @reg
+    def _CallbackEffect():
+        dep = ep_step("eff", "B", "be")
+        return S(CallbackEffect(dep), {"dep": ep_subst_fn}, dep=dep)
+
+    @reg
+    def _ChainedEffect():
+        dep = ep_step("eff", "B", "be")
+        return S(ChainedEffect(CallbackEffect(dep), LogEffect(20, "c18.ep", "c18 ep effect"), CallbackEffect(lambda v: None)),
+                 {"dep": ep_subst_fn}, dep=dep)
+
+    @reg
+    def _LogEffect():
+        return S(LogEffect(20, "c18.ep", "c18 ep effect"))
+
+    # user-defined node classes (shapes of the family of part 5)
+    fam = {r["id"]: r for r in user_family()}
+    for rid in ("E.body", "E.mixin_before.evaluate", "E.parent.evaluate", "E.override.evaluate", "E.override_chain_slot.evaluate",
+                "Option.override.evaluate", "Switch.override.keys"):
+        out["user:" + rid] = (lambda r: lambda: S(u_node(r)))(fam[rid])
+    return out
+
+
+def ep_functions_table():
+    """labrea.functions: public name -> (arguments of the helper, input value). The arguments use options
+    where the helper accepts an Evaluatable, so that applying the step evaluates something."""
+    from labrea import Option, Value
+    B = lambda d: Option("B", d)      # noqa: E731
+    inc, pos = FUNCS["inc"], FUNCS["pos"]
+    add1 = lambda a, b: a + b      # noqa: E731
+    return {
+        "partial": ((add1, B(10)), 1), "map": ((Option("FN", default=Value(inc)),), [1, 2]), "filter": ((Value(pos),), [-1, 2]),
+        "reduce": ((add1, B(10)), [1, 2]), "into": ((Value(FUNCS["tup"]),), [1, 2]), "flatten": None, "flatmap": ((lambda v: [v, v],), [1, 2]),
+        "map_items": ((lambda k, v: (v, k),), {"a": 1}), "map_keys": ((str.upper,), {"a": 1}), "map_values": ((Value(inc),), {"a": 1}),
+        "filter_items": ((lambda k, v: v > 0,), {"a": 1, "b": -1}), "filter_keys": ((lambda k: k == "a",), {"a": 1, "b": 2}),
+        "filter_values": ((Value(pos),), {"a": 1, "b": -1}),
+        "concat": ((Option("C", [9]),), [1]), "append": ((B(10),), [1]), "intersect": ((Option("C", [1]),), [1, 2]),
+        "union": ((Option("C", [1]),), [2]), "difference": ((Option("C", [1]),), [1, 2]), "symmetric_difference": ((Option("C", [1]),), [1, 2]),
+        "get": ((B("a"),), {"a": 1, "bee": 2, "x": 3, "b": 4, "only-b": 5}), "get_from": ((Option("D", {"k": 1}),), "k"),
+        "add": ((B(10),), "s" if False else 1), "subtract": ((Option("A", 1),), 5), "multiply": ((Option("A", 1),), 5),
+        "left_multiply": ((Option("A", 1),), 5), "divide_by": ((Option("FACTOR", 2),), 8), "divide_into": ((Option("A", 1),), 4),
+        "negate": None, "modulo": ((Option("FACTOR", 2),), 7), "merge": ((Option("D", {"k": 1}),), {"j": 2}), "length": None,
+        "instance_of": ((Option("T", default=Value(int)),), 3), "all": ((Value(pos), Option("FN", default=Value(pos))), 3),
+        "any": ((Value(pos), Option("FN", default=Value(pos))), -3), "invert": ((Option("FN", default=Value(pos)),), 3),
+        "eq": ((Option("A", 1),), 1), "ne": ((Option("A", 1),), 1), "gt": ((Option("A", 1),), 2), "ge": ((Option("A", 1),), 2),
+        "lt": ((Option("A", 1),), 2), "le": ((Option("A", 1),), 2), "has_remainder": ((Option("FACTOR", 2), 1), 7),
+        "positive": None, "negative": None, "non_positive": None, "non_negative": None, "even": None, "odd": None,
+        "is_none": None, "is_not_none": None, "is_in": ((Option("C", [1]),), 1), "is_not_in": ((Option("C", [1]),), 1),
+        "one_of": ((Option("A", 1), 2), 1), "none_of": ((Option("A", 1), 2), 1), "contains": ((Option("A", 1),), [1, 2]),
+        "does_not_contain": ((Option("A", 1),), [1, 2]), "intersects": ((Option("C", [1]),), [1, 2]),
+        "disjoint_from": ((Option("C", [1]),), [1, 2]), "ensure": ((Value(pos), "must be positive"), 3),
+        "get_attribute": ((Option("ATTR", "real"),), 3), "call_method": ((Option("METH", "bit_length"),), 5),
+    }
+
+
+def ep_function_subjects():
+    """One subject per public helper of labrea.functions (enumerated by reflection over the module)."""
+    import labrea.functions as F
+    T = W.T
+    table = ep_functions_table()
+    out, untabled = {}, []
+    for name in sorted(vars(F)):
+        obj = getattr(F, name)
+        if name.startswith("_") or getattr(obj, "__module__", F.__name__) != F.__name__ and not isinstance(obj, T.Evaluatable):
+            continue
+        if isinstance(obj, type) or not (callable(obj) or isinstance(obj, T.Evaluatable)):
+            continue
+        if isinstance(obj, T.Evaluatable):
+            if type(obj).__module__.split(".")[0] != "labrea" or name in ("Evaluatable",):
+                continue
+
+            def b(obj=obj, name=name):
+                x = {"flatten": [[1], [2]], "negate": 3, "length": [1, 2], "is_none": None, "is_not_none": None}.get(name, 3)
+                return {"node": obj, "x": x, "subs": {"node": ep_subst_fn}}
+            out[name] = b
+            continue
+        if name not in table:
+            untabled.append(name)
+            continue
+        spec = table[name]
+        if spec is None:
+            untabled.append(name)
+            continue
+
+        def b(obj=obj, name=name):
+            args, x = ep_functions_table()[name]
+            node = obj(*args)
+            deps = [a for a in args if isinstance(a, W.T.Evaluatable) and type(a).__name__ == "Option"]
+            d = {"node": node, "x": x, "subs": {"node": ep_subst_fn}}
+            if deps:
+                d["dep"] = deps[0]
+            return d
+        out[name] = b
+    return out, untabled
+
+
+def ep_rows():
+    """The table: entry point -> equivalent direct form (only evaluate / validate / keys / explain called on
+    nodes, node constructors, and plain Python). `applies(S)` selects the subjects; `via(S, o)` is the entry
+    point, `direct(S, o)` the direct form; `o` is None in the rows that call the entry point without options."""
+    import labrea
+    from confectioner import mix
+    from confectioner.templating import get_dotted_key
+    from labrea import Option, Value, Iter, Coalesce, Switch, case, cached, dataset, WithOptions, WithDefaultOptions, Overloaded, \
+        pipeline_step, coalesce, switch
+    from labrea.application import FunctionApplication, PartialApplication
+    from labrea.arguments import EvaluatableArguments, arguments
+    from labrea.cache import Cached, MemoryCache
+    from labrea.computation import CallbackEffect, ChainedEffect, Effect
+    from labrea.conditional import CaseWhen
+    from labrea.dataset import Dataset
+    from labrea.datasetclass import _DatasetClassMeta
+    from labrea.iterable import Map
+    from labrea.logging import LogEffect, LogRequest
+    from labrea.option import Namespace
+    from labrea.pipeline import Pipeline, PipelineStep
+    T = W.T
+    Ev = T.Evaluatable
+    Apply, Bind = T.Apply, T.Bind
+    rows = []
+
+    def isa(*K):
+        return lambda S: isinstance(S["node"], K)
+
+    def row(rid, member, applies, via, direct, expect, kind="evaluates", targets=None, inner=None, anon=False):
+        rows.append({"id": rid, "member": member, "applies": applies, "via": via, "direct": direct, "expect": expect,
+                     "kind": kind, "targets": targets, "inner": inner, "anon": anon})
+    ev = lambda S, o: S["node"].evaluate(o)      # noqa: E731
+    own = lambda S: not S.get("_functions") and not S.get("_helper")      # noqa: E731
+    E = lambda S: isinstance(S["node"], Ev) and own(S)      # noqa: E731
+    EC = lambda S: E(S) and not isinstance(S["node"], type)      # noqa: E731  (a dataset class: DatasetClass.instantiate)
+    # ---- members every Evaluatable inherits
+    row("Evaluatable.__call__", "__call__", EC, lambda S, o: S["node"](o), ev,
+        "node(o) == node.evaluate(o): one EvaluateRequest for node, then whatever node.evaluate issues")
+    row("Evaluatable.__call__:noopts", "__call__", EC, lambda S, o: S["node"](), lambda S, o: S["node"].evaluate({}),
+        "node() == node.evaluate({})")
+    row("Evaluatable.__call__:None", "__call__", EC, lambda S, o: S["node"](None), lambda S, o: S["node"].evaluate({}),
+        "node(None) == node.evaluate({})")
+    row("Evaluatable.__rshift__", "__rshift__", E, lambda S, o: (S["node"] >> ep_tag).evaluate(o),
+        lambda S, o: Apply(S["node"], Value(ep_tag)).evaluate(o),
+        "(node >> f).evaluate(o) == Apply(node, Value(f)).evaluate(o); node.evaluate(o)'s requests are part of it, in order",
+        kind="constructs", inner=ev)
+    row("Evaluatable.__rshift__:step", "__rshift__", E, lambda S, o: (S["node"] >> S["_step"]).evaluate(o),
+        lambda S, o: Apply(S["node"], S["_step"]).evaluate(o),
+        "(node >> step).evaluate(o) == Apply(node, step).evaluate(o) (an Evaluatable function is used as it is)",
+        kind="constructs", inner=ev)
+    row("Evaluatable.apply", "apply", E, lambda S, o: S["node"].apply(ep_tag).evaluate(o),
+        lambda S, o: Apply(S["node"], Value(ep_tag)).evaluate(o), "node.apply(f).evaluate(o) == Apply(node, Value(f)).evaluate(o)",
+        kind="constructs", inner=ev)
+    row("Evaluatable.apply:step", "apply", E, lambda S, o: S["node"].apply(S["_step"]).evaluate(o),
+        lambda S, o: Apply(S["node"], S["_step"]).evaluate(o), "node.apply(step).evaluate(o) == Apply(node, step).evaluate(o)",
+        kind="constructs", inner=ev)
+    row("Evaluatable.bind", "bind", E, lambda S, o: S["node"].bind(S["_bound"]).evaluate(o),
+        lambda S, o: Bind(S["node"], S["_bound"]).evaluate(o), "node.bind(g).evaluate(o) == Bind(node, g).evaluate(o)",
+        kind="constructs", inner=ev)
+    row("Evaluatable.result", "result", E, lambda S, o: S["node"].result.evaluate(o), ev, "node.result is node",
+        kind="accessor")
+    row("Evaluatable.fingerprint", "fingerprint", E, lambda S, o: S["node"].fingerprint(o).decode(),
+        lambda S, o: json.dumps([{k: get_dotted_key(k, o)} for k in sorted(S["node"].keys(o))]),
+        "node.fingerprint(o): one KeysRequest for node (the JSON of node.keys(o) with the values)")
+    row("Evaluatable.ensure", "ensure", E, lambda S, o: S["node"].ensure(S["node"]).evaluate(o), ev,
+        "ensure(node) is node", kind="accessor")
+    row("Evaluatable.ensure:plain", "ensure", E, lambda S, o: S["node"].ensure(5).evaluate(o), lambda S, o: Value(5).evaluate(o),
+        "ensure(5) == Value(5)", kind="constructs", targets=[])
+    row("Evaluatable.unit", "unit", E, lambda S, o: S["node"].unit(5).evaluate(o), lambda S, o: Value(5).evaluate(o),
+        "unit(5) == Value(5)", kind="constructs", targets=[])
+    # ---- transformations
+    TR = lambda S: isinstance(S["node"], (PipelineStep, Pipeline)) and own(S)      # noqa: E731
+    row("Transformation.transform", "transform", TR, lambda S, o: S["node"].transform(S["x"], o), lambda S, o: S["node"].evaluate(o)(S["x"]),
+        "step.transform(x, o) == step.evaluate(o)(x): one EvaluateRequest for the step / pipeline, then whatever its evaluate issues")
+    row("Transformation.transform:noopts", "transform", TR, lambda S, o: S["node"].transform(S["x"]),
+        lambda S, o: S["node"].evaluate({})(S["x"]), "step.transform(x) == step.evaluate({})(x)")
+    row("Transformation.transform:None", "transform", TR, lambda S, o: S["node"].transform(S["x"], None),
+        lambda S, o: S["node"].evaluate({})(S["x"]), "step.transform(x, None) == step.evaluate({})(x)")
+    row("Transformation.transform:kw", "transform", TR, lambda S, o: S["node"].transform(value=S["x"], options=o),
+        lambda S, o: S["node"].evaluate(o)(S["x"]), "step.transform(value=x, options=o) == step.evaluate(o)(x)")
+
+    def eff_direct(e, x, o):
+        if isinstance(e, ChainedEffect):
+            for m in e.effects:
+                eff_direct(m, x, o)
+        elif isinstance(e, CallbackEffect):
+            e.callback.evaluate(o or {})(x)
+        elif isinstance(e, LogEffect):
+            LogRequest(e.level, e.name, e.msg, o or {}).run()
+        else:
+            raise TypeError(e)
+    EF = isa(Effect)
+    row("Effect.transform", "transform", EF, lambda S, o: S["node"].transform(S["x"], o), lambda S, o: eff_direct(S["node"], S["x"], o),
+        "CallbackEffect: callback.evaluate(o)(x); ChainedEffect: each member in order; LogEffect: one LogRequest",
+        targets=["dep"])
+    row("Effect.transform:noopts", "transform", EF, lambda S, o: S["node"].transform(S["x"]), lambda S, o: eff_direct(S["node"], S["x"], None),
+        "the same with options omitted: the callback is evaluated on {}", targets=["dep"])
+    PS = lambda S: isinstance(S["node"], PipelineStep) and own(S)      # noqa: E731
+    PL = lambda S: isinstance(S["node"], Pipeline) and own(S)      # noqa: E731
+    row("PipelineStep.__add__:step", "__add__", PS, lambda S, o: (S["node"] + S["_step"]).evaluate(o)(S["x"]),
+        lambda S, o: Pipeline(S["_step"], Pipeline(S["node"])).evaluate(o)(S["x"]),
+        "(step + other) == Pipeline(other, Pipeline(step))", kind="constructs")
+    row("PipelineStep.__add__:function", "__add__", PS, lambda S, o: (S["node"] + ep_tag).evaluate(o)(S["x"]),
+        lambda S, o: Pipeline(PipelineStep(Value(ep_tag)), Pipeline(S["node"])).evaluate(o)(S["x"]),
+        "(step + f) == Pipeline(PipelineStep(Value(f)), Pipeline(step))", kind="constructs")
+    row("PipelineStep.__add__:transform", "__add__", PS, lambda S, o: (S["node"] + S["_step"]).transform(S["x"], o),
+        lambda S, o: Pipeline(S["_step"], Pipeline(S["node"])).evaluate(o)(S["x"]),
+        "(step + other).transform(x, o) == Pipeline(other, Pipeline(step)).evaluate(o)(x)", kind="constructs")
+    row("Pipeline.__add__:step", "__add__", PL, lambda S, o: (S["node"] + S["_step"]).evaluate(o)(S["x"]),
+        lambda S, o: Pipeline(S["_step"], S["node"]).evaluate(o)(S["x"]), "(pipeline + step) == Pipeline(step, pipeline)", kind="constructs")
+    row("Pipeline.__add__:function", "__add__", PL, lambda S, o: (S["node"] + ep_tag).evaluate(o)(S["x"]),
+        lambda S, o: Pipeline(PipelineStep(Value(ep_tag)), S["node"]).evaluate(o)(S["x"]),
+        "(pipeline + f) == Pipeline(PipelineStep(Value(f)), pipeline)", kind="constructs")
+    row("Pipeline.__add__:pipeline", "__add__", PL, lambda S, o: (S["node"] + (S["_step"] + S["_step2"])).evaluate(o)(S["x"]),
+        lambda S, o: Pipeline(S["_step2"], Pipeline(S["_step"], S["node"])).evaluate(o)(S["x"]),
+        "(pipeline + (s + t)) == Pipeline(t, Pipeline(s, pipeline))", kind="constructs")
+    row("Pipeline.__iter__", "__iter__", lambda S: isinstance(S["node"], Pipeline) and "s1" in S,
+        lambda S, o: [("@s1" if s is S["s1"] else "@s2" if s is S.get("s2") else type(s).__name__) for s in S["node"]][:2 if "s2" in S else 1],
+        lambda S, o: ["@s1", "@s2"][:1 if "s2" not in S else 2], "iterating a pipeline yields its steps in order and issues no request",
+        kind="no_request", targets=[])
+    row("Pipeline.empty", "empty", lambda S: PL(S) and not S.get("_random_pipe"), lambda S, o: S["node"].empty, lambda S, o: "s1" not in S,
+        "pipeline.empty issues no request", kind="no_request", targets=[])
+    # ---- Map
+    row("Map.values", "values", isa(Map), lambda S, o: S["node"].values.evaluate(o), lambda S, o: Apply(S["node"], Value(ep_second)).evaluate(o),
+        "map.values.evaluate(o) == Apply(map, Value(second of each)).evaluate(o)", kind="constructs", inner=ev)
+    # ---- Option
+    OP = lambda S: type(S["node"]) is Option      # noqa: E731
+    row("Option.set", "set", OP, lambda S, o: S["node"].evaluate(S["node"].set(o, "SET")),
+        lambda S, o: S["node"].evaluate(mix(o, ep_nested(S["node"].key, "SET"))),
+        "option.set(o, v) issues no request and returns o with the key set: evaluating on it gives v", kind="no_request")
+    row("Option.namespace", "namespace", isa(Namespace), lambda S, o: S["node"].evaluate(o),
+        lambda S, o: Namespace("PKG", {"A": Option("PKG.A", type=int), "B": Option("PKG.B", default="dflt"),
+                                       "T": Option.auto(default="{B}", doc="templated") >> str,
+                                       "SUB": Namespace("PKG.SUB", {"X": Option("PKG.SUB.X", default=3)})}).evaluate(o),
+        "Option.namespace(cls) == Namespace(key, {member: Option(key.member, ...)})", kind="constructs", targets=[], anon=True)
+    row("Option.auto", "auto", isa(Namespace), lambda S, o: S["node"].T.evaluate(o),
+        lambda S, o: Apply(Option("PKG.T", default="{B}"), Value(str)).evaluate(o),
+        "a member declared with Option.auto(default) >> f is Apply(Option(key.member, default), Value(f))", kind="constructs", targets=[])
+    row("Namespace.__getattr__", "__getattr__", isa(Namespace), lambda S, o: (S["node"].B.evaluate(o), S["node"].SUB.X.evaluate(o)),
+        lambda S, o: (Option("PKG.B", default="dflt").evaluate(o), Option("PKG.SUB.X", default=3).evaluate(o)),
+        "namespace.member is the member's Option: evaluating it is one EvaluateRequest for that Option", kind="accessor", targets=[])
+    row("Namespace.__getitem__", "__getitem__", isa(Namespace), lambda S, o: S["node"]["B"].evaluate(o),
+        lambda S, o: Option("PKG.B", default="dflt").evaluate(o), "namespace['member'] is the member's Option", kind="accessor", targets=[])
+    # ---- Overloaded / CaseWhen / Switch
+    OV = isa(Overloaded)
+    row("Overloaded.register", "register", OV, lambda S, o: (S["node"].register((o or {}).get("MODE", "none"), S["_alt"]), S["node"].evaluate(o))[1],
+        lambda S, o: (setattr(S["node"], "lookup", dict(S["node"].lookup, **{(o or {}).get("MODE", "none"): S["_alt"]})), S["node"].evaluate(o))[1],
+        "register(key, v) issues no request; afterwards evaluate dispatches to v through an EvaluateRequest for v", kind="mutator",
+        targets=["node", "_alt", "disp"])
+    row("Overloaded.switch", "switch", OV, lambda S, o: S["node"].switch.evaluate(o),
+        lambda S, o: Switch(S["node"].dispatch, S["node"].lookup, S["node"].default).evaluate(o),
+        "overloaded.switch == Switch(dispatch, lookup, default)", kind="constructs", targets=["dep", "disp"])
+    CW = isa(CaseWhen)
+    row("CaseWhen.when", "when", CW, lambda S, o: S["node"].when(FUNCS["always"], S["_alt"]).evaluate(o),
+        lambda S, o: CaseWhen(S["node"].dispatch, [*S["node"].cases, (Value(FUNCS["always"]), S["_alt"])], S["node"].default).evaluate(o),
+        "case.when(p, r) == CaseWhen(dispatch, cases + [(Value(p), r)], default)", kind="constructs", targets=["dep", "res", "_alt"])
+    row("CaseWhen.otherwise", "otherwise", CW, lambda S, o: S["node"].otherwise(S["_alt"]).evaluate(o),
+        lambda S, o: CaseWhen(S["node"].dispatch, S["node"].cases, S["_alt"]).evaluate(o),
+        "case.otherwise(d) == CaseWhen(dispatch, cases, d)", kind="constructs", targets=["dep", "res", "_alt"])
+    # ---- lift
+    row("FunctionApplication.lift", "lift", lambda S: type(S["node"]) is FunctionApplication,
+        lambda S, o: type(S["node"]).lift(S["_fn"][0], c=S["_alt"]).evaluate(o),
+        lambda S, o: FunctionApplication(S["_fn"][0], a=S["_fn"][1], b=Value(2), c=S["_alt"]).evaluate(o),
+        "FunctionApplication.lift(f, **kw) == FunctionApplication(f, **{parameter: its default or kw})", kind="constructs", targets=["_alt"])
+    row("PartialApplication.lift", "lift", lambda S: type(S["node"]) is PartialApplication,
+        lambda S, o: type(S["node"]).lift(S["_pfn"][0], b=S["_alt"]).evaluate(o)(S["x"]),
+        lambda S, o: PartialApplication(S["_pfn"][0], a=S["_pfn"][1], b=S["_alt"]).evaluate(o)(S["x"]),
+        "PartialApplication.lift(f, **kw) == PartialApplication(f, **{defaulted parameter: its default or kw})", kind="constructs",
+        targets=["_alt"])
+    # ---- Dataset
+    DS = isa(Dataset)
+    conc = lambda S: isinstance(S["node"], Dataset) and not S["node"].is_abstract      # noqa: E731
+    row("Dataset.default", "default", conc, lambda S, o: S["node"].default.evaluate(o), lambda S, o: S["node"].overloads.default.evaluate(o),
+        "dataset.default is the default implementation node: evaluating it is a request for that node, not for the dataset",
+        kind="accessor", targets=["dep"])
+    row("Dataset.is_abstract", "is_abstract", DS, lambda S, o: S["node"].is_abstract, lambda S, o: "MISSING" in repr(S["node"].overloads.default),
+        "issues no request", kind="no_request", targets=[])
+
+    def rebuilt(ds, options=None, default_options=None):
+        return Dataset(ds.overloads, ds.effects, ds.cache, mix(ds.options, options or {}), mix(ds.default_options, default_options or {}),
+                       ds.callback)
+    WO = {"A": 30, "S": {"X": "wx"}}
+    row("Dataset.with_options", "with_options", DS, lambda S, o: S["node"].with_options(WO)(o), lambda S, o: rebuilt(S["node"], WO).evaluate(o),
+        "ds.with_options(X)(o) == Dataset(ds.overloads, ds.effects, ds.cache, mix(ds.options, X), ds.default_options, ds.callback)"
+        ".evaluate(o): one EvaluateRequest for the new dataset, then the shared implementation nodes", kind="constructs",
+        targets=["dep", "alt", "eff", "cb"])
+    row("Dataset.with_default_options", "with_default_options", DS, lambda S, o: S["node"].with_default_options(WO)(o),
+        lambda S, o: rebuilt(S["node"], None, WO).evaluate(o), "the same with mix(ds.default_options, X)", kind="constructs",
+        targets=["dep", "alt", "eff", "cb"])
+    key = lambda o: (o or {}).get("MODE", "none")      # noqa: E731
+    row("Dataset.register", "register", DS, lambda S, o: (S["node"].register(key(o), S["_alt"]), S["node"].evaluate(o))[1],
+        lambda S, o: (S["node"].overloads.register(key(o), S["_alt"]), S["node"].evaluate(o))[1],
+        "ds.register(k, v) == ds.overloads.register(k, v): no request; afterwards evaluate reaches v through an EvaluateRequest",
+        kind="mutator", targets=["node", "_alt", "dep"])
+
+    def ovfn(b=None):
+        return ("overload", b)
+
+    def mk_ov(S):
+        return dataset(ovfn, defaults={"b": S["_alt"]})
+    row("Dataset.overload", "overload", lambda S: isinstance(S["node"], Dataset) and "MISSING" not in repr(S["node"].overloads.dispatch),
+        lambda S, o: (S["node"].overload(key(o))(mk_ov(S)), S["node"].evaluate(o))[1],
+        lambda S, o: (S["node"].overloads.register(key(o), mk_ov(S)), S["node"].evaluate(o))[1],
+        "ds.overload(k)(d) registers d under k: no request; afterwards evaluate reaches d through an EvaluateRequest", kind="mutator",
+        targets=["node", "_alt"])
+    row("Dataset.set_dispatch", "set_dispatch", DS, lambda S, o: (S["node"].set_dispatch(S["_disp"]), S["node"].evaluate(o))[1],
+        lambda S, o: (setattr(S["node"], "overloads", Overloaded(S["_disp"], dict(S["node"].overloads.lookup), default=S["node"].overloads.default)),
+                      S["node"].evaluate(o))[1],
+        "ds.set_dispatch(d): no request; afterwards evaluate evaluates d through an EvaluateRequest", kind="mutator",
+        targets=["node", "_disp", "dep"])
+    row("Dataset.set_cache", "set_cache", DS, lambda S, o: (S["node"].set_cache(MemoryCache()), S["node"].evaluate(o), S["node"].evaluate(o))[1:],
+        lambda S, o: (setattr(S["node"], "cache", MemoryCache()), S["node"].evaluate(o), S["node"].evaluate(o))[1:],
+        "ds.set_cache(c): no request; afterwards the cache requests name c", kind="mutator", targets=["node", "dep"])
+    row("Dataset.set_cache:factory", "set_cache", DS, lambda S, o: (S["node"].set_cache(MemoryCache), S["node"].evaluate(o), S["node"].evaluate(o))[1:],
+        lambda S, o: (setattr(S["node"], "cache", MemoryCache()), S["node"].evaluate(o), S["node"].evaluate(o))[1:],
+        "ds.set_cache(factory) == ds.set_cache(factory())", kind="mutator", targets=["node", "dep"])
+    for nm in ("add_effects", "add_effect"):
+        row("Dataset." + nm, nm, DS, lambda S, o, nm=nm: (getattr(S["node"], nm)(S["_step"], CallbackEffect(S["_step2"])), S["node"].evaluate(o))[1],
+            lambda S, o: (S["node"].effects.extend([CallbackEffect(S["_step"]), CallbackEffect(S["_step2"])]), S["node"].evaluate(o))[1],
+            "ds.%s(e, ...): no request; afterwards evaluate applies e: an Evaluatable callback is evaluated through an EvaluateRequest" % nm,
+            kind="mutator", targets=["node", "_step", "_step2", "dep"])
+    row("Dataset.disable_effects", "disable_effects", DS, lambda S, o: (S["node"].disable_effects(), S["node"].evaluate(o))[1],
+        lambda S, o: (setattr(S["node"], "_effects_disabled", True), S["node"].evaluate(o))[1],
+        "no request; afterwards evaluate applies no effect", kind="mutator", targets=["node", "dep", "eff"])
+    row("Dataset.enable_effects", "enable_effects", DS,
+        lambda S, o: (S["node"].disable_effects(), S["node"].enable_effects(), S["node"].evaluate(o))[2], ev,
+        "disable_effects() then enable_effects() == nothing", kind="mutator", targets=["node", "dep", "eff"])
+    # ---- dataset classes
+    DCm = isa(_DatasetClassMeta)
+    row("DatasetClass.instantiate", "__call__", DCm, lambda S, o: S["node"](o), ev,
+        "DC(o) == DC.evaluate(o): one EvaluateRequest for the class, then one per member and the KeysRequest for the repr")
+    row("DatasetClass.instantiate:member", "__call__", DCm, lambda S, o: S["node"](o).a, lambda S, o: S["node"].evaluate(o).a,
+        "DC(o).member == DC.evaluate(o).member")
+    # ---- helper constructors of the package namespace (not members of a node class)
+    H = lambda S: S.get("_helper") is True      # noqa: E731
+    row("labrea.cached", "cached", H, lambda S, o: (lambda c: (c(o), c(o)))(cached(S["dep"])),
+        lambda S, o: (lambda c: (c.evaluate(o), c.evaluate(o)))(Cached(S["dep"], MemoryCache())),
+        "cached(x)(o) == Cached(x, MemoryCache()).evaluate(o): the second call is answered by the cache requests", kind="constructs",
+        targets=["dep"])
+    row("labrea.cached:decorator", "cached", H, lambda S, o: (lambda c: (c(o), c(o)))(cached(MemoryCache())(S["dep"])),
+        lambda S, o: (lambda c: (c.evaluate(o), c.evaluate(o)))(Cached(S["dep"], MemoryCache())),
+        "cached(cache)(x) == Cached(x, cache)", kind="constructs", targets=["dep"])
+    row("labrea.Switch:str", "Switch", H, lambda S, o: switch("K", {"k1": S["dep"], "k2": 2}, "dflt")(o),
+        lambda S, o: Switch(Option("K"), {"k1": S["dep"], "k2": Value(2)}, Value("dflt")).evaluate(o),
+        "switch('K', {k: v}, d) == Switch(Option('K'), {k: ensure(v)}, ensure(d))", kind="constructs", targets=["dep"])
+    row("labrea.case", "case", H, lambda S, o: case(S["dep"]).when(FUNCS["pos"], S["_alt"]).otherwise("neg")(o),
+        lambda S, o: CaseWhen(S["dep"], [(Value(FUNCS["pos"]), S["_alt"])], Value("neg")).evaluate(o),
+        "case(d).when(p, r).otherwise(x) == CaseWhen(d, [(Value(p), r)], Value(x))", kind="constructs", targets=["dep", "_alt"])
+    row("labrea.case:plain", "case", H, lambda S, o: case(3).when(FUNCS["pos"], S["dep"])(o),
+        lambda S, o: CaseWhen(Value(3), [(Value(FUNCS["pos"]), S["dep"])]).evaluate(o),
+        "case(value) == CaseWhen(Value(value), [])", kind="constructs", targets=["dep"])
+    row("labrea.coalesce", "coalesce", H, lambda S, o: coalesce(Option("MISSING"), S["dep"], 5)(o),
+        lambda S, o: Coalesce(Option("MISSING"), S["dep"], Value(5)).evaluate(o), "coalesce(a, b, 5) == Coalesce(a, b, Value(5))",
+        kind="constructs", targets=["dep"])
+    row("labrea.WithDefaultOptions", "WithDefaultOptions", H, lambda S, o: WithDefaultOptions(S["dep"], {"A": 9})(o),
+        lambda S, o: WithOptions(S["dep"], {"A": 9}, force=False).evaluate(o), "WithDefaultOptions(x, X) == WithOptions(x, X, force=False)",
+        kind="constructs", targets=["dep"])
+    for nm, py in (("list", list), ("tuple", tuple), ("set", set)):
+        row("labrea.evaluatable_" + nm, "evaluatable_" + nm, H,
+            lambda S, o, nm=nm: getattr(labrea, "evaluatable_" + nm)(S["dep"], S["_alt"])(o),
+            lambda S, o, py=py: Apply(Iter(S["dep"], S["_alt"]), Value(py)).evaluate(o),
+            "evaluatable_%s(a, b) == Apply(Iter(a, b), Value(%s))" % (nm, nm), kind="constructs", targets=["dep", "_alt"])
+    row("labrea.evaluatable_dict", "evaluatable_dict", H, lambda S, o: labrea.evaluatable_dict({"p": S["dep"], "q": S["_alt"]})(o),
+        lambda S, o: Apply(Iter(Iter(Value("p"), S["dep"]), Iter(Value("q"), S["_alt"])), Value(dict)).evaluate(o),
+        "evaluatable_dict({k: v}) == Apply(Iter(Iter(Value(k), v), ...), Value(dict))", kind="constructs", targets=["dep", "_alt"])
+    row("labrea.arguments", "arguments", H, lambda S, o: arguments(S["dep"], 2, k=S["_alt"])(o),
+        lambda S, o: EvaluatableArguments(S["dep"], Value(2), k=S["_alt"]).evaluate(o),
+        "arguments(a, 2, k=b) == EvaluatableArguments(a, Value(2), k=b)", kind="constructs", targets=["dep", "_alt"])
+
+    def psfn(x, p=None):
+        return ("ps", x, p)
+    row("labrea.pipeline_step", "pipeline_step", H, lambda S, o: (lambda f: pipeline_step(f).transform(EP_X, o))(_with_default(psfn, S["dep"])),
+        lambda S, o: (lambda f: PipelineStep(PartialApplication(f, p=S["dep"]), "ps").evaluate(o)(EP_X))(_with_default(psfn, S["dep"])),
+        "pipeline_step(f).transform(x, o) == PipelineStep(PartialApplication(f, **defaults)).evaluate(o)(x)", kind="constructs",
+        targets=["dep"])
+    row("labrea.dataset", "dataset", H, lambda S, o: dataset(psfn, defaults={"x": S["dep"], "p": S["_alt"]})(o),
+        lambda S, o: dataset(psfn, defaults={"x": S["dep"], "p": S["_alt"]}).evaluate(o),
+        "dataset(f, defaults=...)(o) == the dataset's evaluate(o)", targets=["dep", "_alt"])
+    # ---- labrea.functions
+    FN = lambda S: S.get("_functions") is True      # noqa: E731
+    appl = lambda S, o: S["node"].evaluate(o)(S["x"]) if callable(getattr(S["node"], "evaluate", None)) else None      # noqa: E731
+    row("functions.transform", "transform", lambda S: FN(S) and hasattr(S["node"], "transform"),
+        lambda S, o: S["node"].transform(S["x"], o), appl,
+        "labrea.functions.<helper>(...).transform(x, o) == its evaluate(o)(x): one EvaluateRequest for the step first")
+    row("functions.transform:noopts", "transform", lambda S: FN(S) and hasattr(S["node"], "transform"),
+        lambda S, o: S["node"].transform(S["x"]), lambda S, o: S["node"].evaluate({})(S["x"]), "the same without options")
+    row("functions.__call__", "__call__", FN, lambda S, o: S["node"](o)(S["x"]), appl, "helper(...)(o)(x) == helper(...).evaluate(o)(x)")
+    row("functions.__rshift__", "__rshift__", lambda S: FN(S) and isinstance(S["node"], PipelineStep),
+        lambda S, o: (Value(S["x"]) >> S["node"]).evaluate(o), lambda S, o: Apply(Value(S["x"]), S["node"]).evaluate(o),
+        "(source >> helper(...)).evaluate(o) == Apply(source, step).evaluate(o)", kind="constructs")
+    return rows
+
+
+def _with_default(f, dep):
+    import types
+    g = types.FunctionType(f.__code__, f.__globals__, "ps", (dep,), f.__closure__)
+    return g
+
+
+EP_EXTRA_SUBS = {"_step": "fn", "_step2": "fn", "_alt": "SUBALT", "_disp": "alt"}
+
+
+class EpSubject(dict):
+    """A subject plus, on demand, fresh auxiliary nodes the rows combine it with (`_step`, `_step2`: pipeline
+    steps; `_alt`, `_disp`: options; `_bound`: a function for bind; `_fn`, `_pfn`: functions with defaults)."""
+
+    def __missing__(self, k):
+        from labrea import Option
+        if k == "_step":
+            v = ep_step("aux", "K", "ka")
+        elif k == "_step2":
+            v = ep_step("aux2", "B", "kb")
+        elif k == "_alt":
+            v = Option("B", "altd")
+        elif k == "_disp":
+            v = Option("K", "kd")
+        elif k == "_bound":
+            alt = self["_alt"]
+            v = lambda x: alt.apply(lambda b: ("bound", b, x))      # noqa: E731
+        elif k == "_fn":
+            dep_a = Option("A", 1)
+
+            def fn(a=dep_a, b=2, **kw):
+                return ("fn", a, b, sorted(kw.items()))
+            v = (fn, dep_a)
+        elif k == "_pfn":
+            dep_p = Option("A", 1)
+
+            def pfn(x, a=dep_p, b=2):
+                return ("pfn", x, a, b)
+            v = (pfn, dep_p)
+        else:
+            raise KeyError(k)
+        self[k] = v
+        return v
+
+
+def ep_extras(S):
+    S = EpSubject(S)
+    for k, v in EP_EXTRA_SUBS.items():
+        S["subs"].setdefault(k, ep_subst_fn if v == "fn" else v)
+    return S
+
+
+# rows whose entry point does NOT issue the requests of its direct form on the unchanged package: kept out of
+# the violation oracle, observed in every run and reported in the evidence (entry_points.observed_only).
+# `drop`: the requests of the direct form that the entry point is known not to issue; with them removed the
+# two forms must still agree (so that anything else the entry point stops issuing is a violation).
+EP_BYPASSES = {
+    "dataset_class_call": {
+        "what": "a dataset class is instantiated by type.__call__ (`type` is listed before Evaluatable in the bases of the metaclass), "
+                "so DC(options) runs the body of DC.evaluate without an EvaluateRequest for DC; Apply and Bind evaluate their "
+                "source as source(options), so (DC >> f)(o), DC.apply(f)(o), DC.bind(g)(o) skip it as well. DC.evaluate(options) "
+                "and DC as the argument of a dataset (`def d(x=DC)`) do issue it. A pass-through handler does not see DC, a "
+                "substituting handler for DC is ignored by these spellings.",
+        "reproducer": "@datasetclass\nclass DC:\n    a: int = Option('A', 1)\nseen = []\ndefault = runtime.Runtime().handlers[EvaluateRequest]\n"
+                      "with runtime.handle(EvaluateRequest, lambda r: (seen.append(r.evaluatable), default(r))[1]):\n"
+                      "    DC({}); (DC >> repr)({})\nassert any(e is DC for e in seen)   # fails; holds for DC.evaluate({})",
+    },
+}
+_EP_DC = {"drop": ["evaluate", "@node"], "target": "node", "bypass": "dataset_class_call"}
+EP_OBSERVED_ONLY = {"DatasetClass.instantiate": _EP_DC, "DatasetClass.instantiate:member": _EP_DC}
+EP_OBSERVED_ONLY.update({f"Evaluatable.{m}|_DatasetClassMeta": _EP_DC
+                         for m in ("__rshift__", "__rshift__:step", "apply", "apply:step", "bind")})
+
+
+def ep_subseq(small, big):
+    """`small` occurs in `big` in order (not necessarily contiguously: a lazy result issues the rest of its
+    requests when it is consumed)"""
+    it = iter(big)
+    return all(any(x == y for y in it) for x in small)
+
+
+def ep_first_diff(a, b):
+    for i, (x, y) in enumerate(zip(a, b)):
+        if x != y:
+            return i
+    return min(len(a), len(b))
+
+
+def ep_show(log, i, n=4):
+    return json.dumps([e[:2] for e in log[max(0, i - 1):i + n]])
+
+
+def ep_random_builder(item):
+    def build():
+        if item.get("pipe") is not None:
+            steps = []
+            for st in item["pipe"]:
+                steps.append(FUNCS[st[1]] if st[0] == "fn" else ep_step(st[1], st[2], st[3], required=bool(st[4])))
+            node = steps[0]
+            if callable(node) and not hasattr(node, "evaluate"):
+                from labrea.pipeline import Pipeline
+                node = Pipeline() + node
+            for s in steps[1:]:
+                node = node + s
+            d = {"node": node, "x": EP_X, "subs": {"node": ep_subst_fn}}
+            first = steps[0]
+            if hasattr(first, "evaluate"):
+                d["s1"], d["dep"] = first, first
+                d["subs"]["dep"] = ep_subst_fn
+                d["subs"]["s1"] = ep_subst_fn
+                if len(steps) > 1 and hasattr(steps[1], "evaluate") and len(steps) == 2:
+                    d["s2"] = steps[1]
+            d["_random_pipe"] = True
+            return d
+        gb = GB(item.get("shared") or [])
+        return {"node": gb.b(item["spec"]), "x": EP_X, "subs": {"node": "SUB"}}
+    return build
+
+
+def ep_reflect(subject_classes):
+    """(class, member) pairs of the package: every labrea.* subclass of the four roots; its public callables and
+    properties: names not starting with `_`, plus __call__, __rshift__, __add__, __iter__ (resolved along the
+    real MRO: `owner` is the class whose body defines what the attribute lookup finds)."""
+    import inspect
+    found, stack = set(), list(W.ROOT.values())
+    while stack:
+        c = stack.pop()
+        if c in found:
+            continue
+        found.add(c)
+        stack.extend(type.__subclasses__(c))
+    out, abstract = {}, []
+    for K in sorted(found, key=lambda c: (c.__module__, c.__qualname__)):
+        if K.__module__.split(".")[0] != "labrea":
+            continue
+        full = f"{K.__module__}.{K.__qualname__}"
+        if inspect.isabstract(K):
+            abstract.append(full)
+            continue
+        names = set()
+        for k in K.__mro__:
+            if k.__module__.split(".")[0] != "labrea":
+                continue
+            for n, v in vars(k).items():
+                if n.startswith("_") and n not in EP_EXTRA_MEMBERS:
+                    continue
+                if callable(v) or isinstance(v, (property, staticmethod, classmethod)):
+                    names.add(n)
+        for n in sorted(names):
+            v, owner = w_static(K, n)
+            out[f"{K.__qualname__}.{n}"] = {"class": full, "member": n, "owner": owner.__qualname__ if owner else None,
+                                            "kind": type(v).__name__}
+    return out, abstract
+
+
+def w_entrypoints(job):
+    w_init(job.get("info"))
+    import labrea
+    T = W.T
+    thorough = job.get("tier") == "thorough"
+    seed = int(job.get("seed") or 0)
+    rows = ep_rows()
+    rowids = [r["id"] for r in rows]
+    subjects = {k: (lambda b: lambda: ep_extras(b()))(b) for k, b in ep_subjects().items()}
+    fsubj, f_untabled = ep_function_subjects()
+    for k, b in fsubj.items():
+        subjects["functions." + k] = (lambda b: lambda: ep_extras(dict(b(), _functions=True)))(b)
+
+    def helper():
+        from labrea import Option
+        dep = Option("A", 1)
+        return ep_extras({"node": dep, "dep": dep, "x": EP_X, "subs": {"dep": 90}, "_helper": True})
+    subjects["(package helpers)"] = helper
+    random_rows = {}
+    for item in job.get("random") or []:
+        subjects[item["name"]] = (lambda b: lambda: ep_extras(b()))(ep_random_builder(item))
+        random_rows[item["name"]] = item
+    only = job.get("only")
+    probes = {}
+    for name, b in subjects.items():
+        if only is not None and not any(c["subject"] == name for c in only):
+            continue
+        try:
+            probes[name] = b()
+        except BaseException as e:     # noqa: BLE001
+            import traceback
+            return {"harness_error": f"subject {name} cannot be built: {type(e).__name__}: {e} {traceback.format_exc()[-500:]}"}
+    per_row = {r["id"]: {"cases": 0, "requests": 0, "subst_cases": 0, "subst_hit": 0, "subst_changes_result": 0, "ok_outcomes": 0,
+                         "subjects": []} for r in rows}
+    by_cm, problems, observed, verbose_out = {}, [], {}, []
+    never_ok = {n: True for n in subjects if n.startswith("functions.")}
+    n = nontrivial = 0
+    for r in rows:
+        for name in sorted(probes):
+            P = probes[name]
+            item = random_rows.get(name)
+            if item is not None and r["id"] not in item["rows"]:
+                continue
+            try:
+                if not r["applies"](P):
+                    continue
+            except Exception:     # noqa: BLE001
+                continue
+            noopts = r["id"].endswith((":noopts", ":None"))
+            if only is not None:
+                opts = [c["options"] for c in only if c["subject"] == name and c["row"] == r["id"]]
+                if not opts:
+                    continue
+            elif item is not None:
+                opts = [item["options"]]
+            elif noopts or r["kind"] == "no_request" and r["id"] != "Option.set":
+                opts = [None] if noopts else [EP_OPTIONS[(seed + n) % len(EP_OPTIONS)]]
+            elif thorough:
+                opts = list(EP_OPTIONS) + list(ALL_OPTS[:2])
+            else:
+                opts = [EP_OPTIONS[(seed + n + j) % len(EP_OPTIONS)] for j in range(2 if r["kind"] == "evaluates" else 1)]
+            n += 1
+            st = per_row[r["id"]]
+            cls = type(P["node"])
+            st["subjects"].append(name)
+            cm = f"{cls.__qualname__}.{r['member']}"
+            build = subjects[name]
+            tkeys = [k for k in (r["targets"] if r["targets"] is not None else ["node", "dep"])
+                     if k in P["subs"] and (k in P or k in EP_EXTRA_SUBS)]
+            obs = EP_OBSERVED_ONLY.get(r["id"]) or EP_OBSERVED_ONLY.get(f"{r['id']}|{cls.__name__}")
+            for o in opts:
+                case = {"row": r["id"], "subject": name, "options": o}
+                if item is not None:
+                    case["random"] = item
+                for mode in [None] + tkeys:
+                    try:
+                        r1, l1, h1 = ep_exec(r["via"], build, o, mode, r["anon"])
+                        r2, l2, h2 = ep_exec(r["direct"], build, o, mode, r["anon"])
+                    except BaseException as e:     # noqa: BLE001
+                        import traceback
+                        return {"harness_error": f"row {r['id']} on {name}: {type(e).__name__}: {e} {traceback.format_exc()[-700:]}"}
+                    if mode is None:
+                        st["cases"] += 1
+                        st["requests"] += len(l1)
+                        nontrivial += 1 if len(l2) >= 3 else 0
+                        by_cm[cm] = by_cm.get(cm, 0) + 1
+                        if r1[0] == "ok":
+                            st["ok_outcomes"] += 1
+                            never_ok.pop(name, None)
+                        plain = r2
+                    else:
+                        st["subst_cases"] += 1
+                        st["subst_hit"] += 1 if h2 else 0
+                        st["subst_changes_result"] += 1 if (h2 and r2 != plain) else 0
+                    if job.get("verbose"):
+                        verbose_out.append({"row": r["id"], "subject": name, "options": o, "mode": mode or "pass-through",
+                                            "via": {"outcome": r1, "requests": l1, "substituted": h1},
+                                            "direct": {"outcome": r2, "requests": l2, "substituted": h2}})
+                    what = f"entry point {r['id']} on {name} ({cls.__name__})"
+                    how = ("with pass-through handlers" if mode is None else
+                           f"with an EvaluateRequest handler that answers {P['subs'][mode]!r} for the node `{mode}`"
+                           .replace(repr(ep_subst_fn), "a substitute function"))
+                    l2c = l2
+                    if obs is not None:
+                        # known bypass: observe; with the known-missing request removed the forms must still agree
+                        l2c = [e for e in l2 if e[:2] != obs["drop"]]
+                        okey = r["id"] if r["id"] in EP_OBSERVED_ONLY else f"{r['id']}|{cls.__name__}"
+                        seen = observed.setdefault(okey, {"bypass": obs["bypass"], "pass_through_cases": 0,
+                                                          "requests_for_the_node_by_direct_form": 0, "requests_for_the_node_by_entry_point": 0,
+                                                          "substitution_cases": 0, "substitution_honoured_by_direct_form": 0,
+                                                          "substitution_honoured_by_entry_point": 0, "sample": None})
+                        if mode is None:
+                            seen["pass_through_cases"] += 1
+                            ref = l2 if r["inner"] is None else ep_exec(r["inner"], build, o, None)[1]
+                            seen["requests_for_the_node_by_direct_form"] += sum(1 for e in ref if e[:2] == obs["drop"])
+                            seen["requests_for_the_node_by_entry_point"] += sum(1 for e in l1 if e[:2] == obs["drop"])
+                            if seen["sample"] is None:
+                                seen["sample"] = {"options": o, "entry_point_requests": [e[:2] for e in l1[:3]],
+                                                  "direct_form_requests": [e[:2] for e in ref[:3]]}
+                        elif obs.get("target") == mode:
+                            seen["substitution_cases"] += 1
+                            if r["inner"] is None:
+                                seen["substitution_honoured_by_direct_form"] += 1 if h2 else 0
+                            else:
+                                seen["substitution_honoured_by_direct_form"] += 1 if ep_exec(r["inner"], build, o, mode)[2] else 0
+                            seen["substitution_honoured_by_entry_point"] += 1 if h1 else 0
+                            continue        # the substitution for the bypassed node itself: observed, not judged
+                    prob = None
+                    if mode is not None and r1 != r2:
+                        prob = (f"{what}, {how}: it returns {json.dumps(r1)[:150]} but its direct form ({r['expect']}) "
+                                f"returns {json.dumps(r2)[:150]} (the handler answered {h1} vs {h2} time(s))")
+                    elif l1 != l2c:
+                        i = ep_first_diff(l1, l2c)
+                        prob = (f"{what}, {how}: it issues other requests than its direct form ({r['expect']}): "
+                                f"{len(l1)} vs {len(l2c)} request(s), first difference at #{i}: entry point {ep_show(l1, i)} "
+                                f"direct form {ep_show(l2c, i)}")
+                    elif r1 != r2:
+                        prob = (f"{what}, {how}: it returns {json.dumps(r1)[:150]} but its direct form ({r['expect']}) "
+                                f"returns {json.dumps(r2)[:150]}")
+                    elif mode is None and r["inner"] is not None and r1[0] == "ok":
+                        ri, li, _ = ep_exec(r["inner"], build, o, None)
+                        if obs is not None:
+                            li = [e for e in li if e[:2] != obs["drop"]]
+                        if ri[0] == "ok" and not ep_subseq(li, l1):
+                            prob = (f"{what}, {how}: the {len(li)} request(s) of node.evaluate(o) {ep_show(li, 0)} are not part "
+                                    f"(in order) of the {len(l1)} request(s) it issues")
+                    if prob:
+                        problems.append({"what": prob, "case": dict(case, mode=mode or "pass-through")})
+    table = []
+    for r in rows:
+        st = per_row[r["id"]]
+        subj = st.pop("subjects")
+        nrand = sum(1 for s in subj if s in random_rows)
+        fixed = [s for s in subj if s not in random_rows]
+        st["subjects"] = fixed[:14] + ([f"(+{len(fixed) - 14} more)"] if len(fixed) > 14 else []) + ([f"(+{nrand} random)"] if nrand else [])
+        table.append(dict({"entry_point": r["id"], "member": r["member"], "kind": r["kind"], "direct_form": r["expect"],
+                           "in_oracle": ("no (observed only)" if r["id"] in EP_OBSERVED_ONLY else
+                                         "yes, except on " + ", ".join(k.split("|")[1] for k in EP_OBSERVED_ONLY if k.startswith(r["id"] + "|"))
+                                         if any(k.startswith(r["id"] + "|") for k in EP_OBSERVED_ONLY) else "yes")}, **st))
+    refl, abstract = ep_reflect(None)
+    core = set(METHS)
+    members = {}
+    for cmk, d in refl.items():
+        members[cmk] = "core operation (parts 1-5)" if d["member"] in core else by_cm.get(cmk, 0)
+    # credit for members that are reached through another subject (static constructors)
+    for cmk, rid in (("Option.namespace", "Option.namespace"), ("Option.auto", "Option.auto")):
+        if cmk in members and not members[cmk]:
+            members[cmk] = per_row[rid]["cases"]
+    uncovered = sorted(k for k, v in members.items() if v == 0)
+    owners = {}
+    for cmk, d in refl.items():
+        if d["owner"] != cmk.rsplit(".", 1)[0]:
+            owners.setdefault(f"{d['owner']}.{d['member']}", []).append(cmk.rsplit(".", 1)[0])
+    pkg = {}
+    for nm in sorted(getattr(labrea, "__all__", [])):
+        obj = getattr(labrea, nm, None)
+        if isinstance(obj, type) and issubclass(obj, tuple(W.ROOT.values())):
+            pkg[nm] = "node class: subject " + obj.__name__
+        elif isinstance(obj, T.Evaluatable):
+            pkg[nm] = "node: subject " + type(obj).__name__.lstrip("_")
+        elif callable(obj):
+            hits = [r["id"] for r in rows if r["id"].startswith("labrea.") and
+                    (r["member"] == nm or getattr(labrea, r["member"], None) is obj)]
+            via_subject = {"datasetclass": "DatasetClass", "abstractdataset": "Dataset_abstract", "interface": "Dataset_interface",
+                           "implements": "Dataset_interface"}.get(nm)
+            pkg[nm] = hits or (("subject " + via_subject) if via_subject in subjects else 0)
+    out = {"table": table, "cases": sum(t["cases"] for t in table), "subst_cases": sum(t["subst_cases"] for t in table),
+           "requests_compared": sum(t["requests"] for t in table), "problems": problems, "members": members, "uncovered_members": uncovered,
+           "abstract_classes": abstract, "inherited_from": {k: sorted(v) for k, v in owners.items()}, "observed_only": observed,
+           "known_bypasses": EP_BYPASSES, "nontrivial_cases": nontrivial,
+           "package_callables": pkg, "functions_untabled": f_untabled, "functions_never_ok": sorted(never_ok),
+           "subjects": len(probes), "classes_with_subject": sorted({type(P["node"]).__qualname__ for P in probes.values()}),
+           "rows": rowids}
+    if job.get("verbose"):
+        out["verbose"] = verbose_out
+    return out
+
+
 def worker_main():
     job = json.loads(sys.stdin.read())
     import labrea
@@ -1776,7 +2987,8 @@ def worker_main():
     if not os.path.realpath(labrea.__file__).startswith(repo):
         print(json.dumps({"worker_error": f"labrea imported from {labrea.__file__}, not from {repo}"}))
         return 0
-    fn = {"reflect": w_reflect, "chains": w_chains, "graphs": w_graphs, "intercept": w_intercept, "subst": w_subst}[job["job"]]
+    fn = {"reflect": w_reflect, "chains": w_chains, "graphs": w_graphs, "intercept": w_intercept, "subst": w_subst,
+          "entrypoints": w_entrypoints}[job["job"]]
     res = fn(job)
     sys.stdout.write(json.dumps(res, default=str))
     return 0
@@ -2352,6 +3564,73 @@ def shrink_chain(spec, still_fails):
     return base + "|" + "|".join(bodies)
 
 
+# ---------------------------------------------------------------------------------- entry points (part 6)
+EP_RANDOM_ROWS = ["Evaluatable.__call__", "Evaluatable.__call__:noopts", "Evaluatable.__rshift__", "Evaluatable.__rshift__:step",
+                  "Evaluatable.apply", "Evaluatable.apply:step", "Evaluatable.bind", "Evaluatable.result", "Evaluatable.fingerprint",
+                  "Evaluatable.ensure"]
+EP_PIPE_ROWS = ["Transformation.transform", "Transformation.transform:noopts", "Transformation.transform:None", "Transformation.transform:kw",
+                "PipelineStep.__add__:step", "PipelineStep.__add__:function", "PipelineStep.__add__:transform", "Pipeline.__add__:step",
+                "Pipeline.__add__:function", "Pipeline.__add__:pipeline", "Pipeline.__iter__", "Evaluatable.__call__",
+                "Evaluatable.__rshift__:step", "Evaluatable.apply"]
+
+
+def entrypoint_job(ctx):
+    """The worker job of part 6. The directed family (every row of the table on every subject it applies to) is
+    the same in every run; the seed rotates the option dictionaries of the quick tier and draws the random
+    graphs / pipelines the inherited entry points are also called on (own random stream)."""
+    rng = random.Random(ctx.seed * 104729 + 618)
+    n = 400 if ctx.tier == "thorough" else 40
+    items = []
+    for i in range(n):
+        nshared = rng.randint(0, 2)
+        shared = [rand_graph(rng, 2, 0) for _ in range(nshared)]
+        items.append({"name": f"random{i}", "spec": rand_graph(rng, rng.randint(1, 3), nshared), "shared": shared,
+                      "rows": rng.sample(EP_RANDOM_ROWS, 3), "options": rng.choice(ALL_OPTS + EP_OPTIONS)})
+    for i in range(n // 2):
+        pipe = []
+        for j in range(rng.randint(1, 4)):
+            if rng.random() < 0.2:
+                pipe.append(["fn", rng.choice(["ident", "str"])])
+            else:
+                pipe.append(["step", f"st{j}", rng.choice(["FACTOR", "B", "K", "A", "MISSING"]), rng.choice([0, "d", [1]]),
+                             rng.random() < 0.25])
+        items.append({"name": f"randpipe{i}", "pipe": pipe, "rows": rng.sample(EP_PIPE_ROWS, 5), "options": rng.choice(EP_OPTIONS)})
+    return {"job": "entrypoints", "tier": ctx.tier, "seed": ctx.seed, "random": items}
+
+
+def part6(ctx, future):
+    res = future.result()
+    if res.get("harness_error") or res.get("worker_error"):
+        raise Infra(f"entry-point table could not be run: {res.get('harness_error') or res.get('worker_error')}")
+    unknown = sorted(set(EP_RANDOM_ROWS + EP_PIPE_ROWS) - set(res["rows"]))
+    if unknown:
+        raise Infra(f"EP_RANDOM_ROWS / EP_PIPE_ROWS name rows the table does not have: {unknown}")
+    findings, per_row_seen = [], {}
+    for p in res["problems"]:
+        k = (p["case"]["row"], p["case"]["mode"] == "pass-through")
+        per_row_seen[k] = per_row_seen.get(k, 0) + 1
+        if per_row_seen[k] > 2:
+            continue            # two findings per (row, kind of handler) are enough for the report
+        findings.append(Finding("failing-input", p["what"], {"part": 6, "case": p["case"]}))
+    cov = {"entry_points": {
+        "what": "every public member of every node class (reflection: names not starting with `_`, plus __call__, __rshift__, "
+                "__add__, __iter__) and the helper constructors of the package / labrea.functions, each compared with its direct "
+                "form (only evaluate/validate/keys/explain called on nodes, node constructors, plain Python): (a) the request "
+                "sequence under pass-through handlers for all request types, (b) result and request sequence under an "
+                "EvaluateRequest handler that substitutes a value for the node / one of its dependencies",
+        "rows": len(res["table"]), "subjects": res["subjects"], "classes_with_subject": res["classes_with_subject"],
+        "cases": res["cases"], "substitution_cases": res["subst_cases"], "requests_compared": res["requests_compared"],
+        "nontrivial_cases": res["nontrivial_cases"], "problems": len(res["problems"]),
+        "table": res["table"], "members": res["members"], "uncovered_members": res["uncovered_members"],
+        "members_inherited_from": res["inherited_from"], "abstract_classes_without_subject": res["abstract_classes"],
+        "package_callables": res["package_callables"], "functions_helpers_without_arguments_in_the_table": res["functions_untabled"],
+        "functions_helpers_never_evaluated_successfully": res["functions_never_ok"],
+        "known_bypasses_kept_out_of_the_oracle": res["known_bypasses"], "observed_only": res["observed_only"],
+    }}
+    return findings, cov, res
+
+
+
 # ---------------------------------------------------------------------------------- the check
 def part1(info, use_model):
     findings, cov = [], {}
@@ -2578,15 +3857,17 @@ def run_all(ctx, use_model, scale=1.0):
     coverage = {"translator_classes": len(info["classes"]), "translator_files": info["files"]}
     from concurrent.futures import ThreadPoolExecutor
     jobs = family_jobs(ctx)
-    with ThreadPoolExecutor(2) as pool:
+    with ThreadPoolExecutor(3) as pool:
         family = jobs + tuple(pool.submit(run_worker, j) for j in jobs)
+        ep_future = pool.submit(run_worker, entrypoint_job(ctx))
         f1, c1 = part1(info, use_model)
         f2, c2 = part2(ctx, info, rng, int(1500 * big * scale), use_model)
         f3, c3 = part3(ctx, rng, int(300 * big * scale), family)
         f4, c4 = part4(ctx, rng, int(80 * big * scale), family)
-    for c in (c1, c2, c3, c4):
+        f6, c6, r6 = part6(ctx, ep_future)
+    for c in (c1, c2, c3, c4, c6):
         coverage.update(c)
-    findings += f1 + f2 + f3 + f4
+    findings += f1 + f2 + f3 + f4 + f6
     # part 5: the user-defined class family, counts per shape
     fam = user_family()
     per_shape = {}
@@ -2621,13 +3902,15 @@ def run_all(ctx, use_model, scale=1.0):
     for f in findings:
         if f.kind == "failing-input":
             f.known_id = classify(f.payload)
-    evaluations = c2["chains"] + c3["graph_cases"] + c4["substitution_cases"] + c1["hooked_method_checks"]
+    evaluations = c2["chains"] + c3["graph_cases"] + c4["substitution_cases"] + c1["hooked_method_checks"] + r6["cases"] + r6["subst_cases"]
     coverage.update({
         "evaluations": evaluations,
-        "distinct_nontrivial": c2["chains_nontrivial"] + c3["graph_cases_nontrivial"] + c4["substitution_cases_where_value_matters"],
+        "distinct_nontrivial": c2["chains_nontrivial"] + c3["graph_cases_nontrivial"] + c4["substitution_cases_where_value_matters"]
+        + r6["nontrivial_cases"],
         "rule": "chains: uses an alias/fake/outside function or a slot def; graphs: the recorded run issued >= 5 requests; "
-                "substitution: the graph's result with the real dataset differs from the substituted one",
-        "programs": c2["chains"] + c3["graphs"] + len(c4["substitution_shapes"]) + len(fam),
+                "substitution: the graph's result with the real dataset differs from the substituted one; entry points: "
+                "(entry point, subject, options) whose direct form issues >= 3 requests under pass-through handlers",
+        "programs": c2["chains"] + c3["graphs"] + len(c4["substitution_shapes"]) + len(fam) + r6["subjects"],
         "disagreements_checked": c2["chain_classes"] * 4 + c1.get("table_lines_compared", 0),
         "samples": c2["chain_samples"] + [c1.get("sample_table_line", "")],
         "distribution": {"chain_tokens": c2["chain_token_histogram"], "request_kinds": c3["request_kinds_seen"],
@@ -2736,6 +4019,27 @@ def replay(ctx, payload):
         if r.get("harness_error"):
             print("  harness error:", r["harness_error"])
         bad = bool(r["problems"]) or bool(r.get("harness_error"))
+    elif part == 6:
+        case = payload["case"]
+        job = {"job": "entrypoints", "only": [case], "verbose": True, "random": [case["random"]] if case.get("random") else []}
+        r = run_worker(job)
+        if r.get("harness_error"):
+            print("  harness error:", r["harness_error"])
+        row = next((t for t in r.get("table", []) if t["entry_point"] == case["row"]), {})
+        print(f"  entry point {case['row']} on subject {case['subject']}; direct form: {row.get('direct_form')}")
+        print("  options:", json.dumps(case["options"]))
+        if case.get("random"):
+            print("  subject:", json.dumps({k: v for k, v in case["random"].items() if k in ("spec", "shared", "pipe")})[:600])
+        for v in r.get("verbose", []):
+            print(f"  [{v['mode']}]")
+            for form in ("via", "direct"):
+                d = v[form]
+                print(f"    {'entry point' if form == 'via' else 'direct form':11s}: outcome {json.dumps(d['outcome'])[:200]}; "
+                      f"{len(d['requests'])} request(s){'' if v['mode'] == 'pass-through' else ', substituted ' + str(d['substituted']) + ' time(s)'}: "
+                      f"{json.dumps([e[:2] for e in d['requests'][:6]])}{' ...' if len(d['requests']) > 6 else ''}")
+        for p in r.get("problems", []):
+            print("  PROBLEM :", p["what"])
+        bad = bool(r.get("problems")) or bool(r.get("harness_error"))
     elif part == 4:
         r = run_worker({"job": "subst", "cases": [payload["case"]]})["cases"][0]
         if r.get("harness_error"):
